@@ -79,7 +79,7 @@ def run_tlc(d, module, cfg=None, env=None, workers=None, timeout=600, args=(), h
     cfg = cfg or module + ".cfg"
     meta = os.path.join(d, "meta_" + re.sub(r"\W", "_", cfg))
     shutil.rmtree(meta, ignore_errors=True)
-    cmd = ["timeout", "-k", "5", str(int(timeout)), "java", "-XX:+UseParallelGC", "-Xmx" + heap,
+    cmd = ["timeout", "-k", "5", str(int(timeout)), "java", "-XX:+UseParallelGC", "-Xss32m", "-Xmx" + heap,
            "-Djava.io.tmpdir=" + os.path.join(d, "tmp"),
            "-cp", JAR + ":" + DEPS, "tlc2.TLC",
            "-workers", str(workers or NCPU), "-metadir", meta, "-noGenerateSpecTE",
